@@ -62,11 +62,18 @@ pub fn alias_mapfile(rng: &mut Rng, format: Format, game: truth::Game) -> Option
 
 impl Prop for C01 {
     fn id(&self) -> &'static str { "C01" }
-    fn relation(&self) -> &'static str { "(no model-compared stream in this check: the flat round-trip theorem composes C03/C12/C13/C14/C18 lemmas; the tie to the code is those properties' correspondences plus the search below)" }
-    fn rule(&self) -> &'static str {
-        "generated sources of every format/game (ANM v0-v8, STD06/10, MSG/END TH06-TH18, old ECL + timelines TH06-TH095) compiled, then decompiled under random subsets of {--no-arguments,--no-intrinsics,--no-calls,--no-blocks,--no-diff-switches} x widths {1,17,40,80,99,200} x optional user mapfile with aliases, recompiled and compared byte for byte unless decompile printed a warning; all bundled binaries under every one of the 32 option subsets; non-trivial = compiles and decompiles without warning; distinct by case text"
+    fn relation(&self) -> &'static str {
+        "raise: (statement list [offset labels by name, time labels, difficulty label, opcode, @mask/@arg0/@blob, arguments incl. registers, offsetof/timeof], warning classes) of the real llir::Raiser with blocks, intrinsics, calls and diff switches off — under the TestLanguage and under the real hooks of ANM/ECL/STD/MSG/timeline games, with generated signature tables and signatures of the game's own table — == Lean `RoundTrip.raiseFlat`; lower: raw instructions (time, opcode, difficulty, param mask, arg0, argument bytes) the real parser + passes + llir::Lowerer produce for a flat statement list == Lean `RoundTrip.lowerFlat`; rtm: raw -> real decompile -> real formatter -> real compile, compared with `lowerFlat (raiseFlat ..)` and judged by the property (no warning => identical instructions); errors by diagnostic class. The end-to-end statement over whole files, option subsets and widths is searched (rt / rtbin cases)."
     }
-    fn theorems(&self) -> &'static [&'static str] { &["TruthModel.C03.readInstrs_writeInstrs"] }
+    fn rule(&self) -> &'static str {
+        "flat (model-compared): languages = TestLanguage (ANM key, timeline key with arg0 signatures) and the real hooks of ANM TH07/TH12, old ECL TH07/TH08/TH095 (relative offsets, difficulty), STD TH06/TH08 (instruction index) / TH12, MSG TH08/TH12, timelines TH07/TH08, each with 2-6 generated signatures (jumps `ot` / `o` / `Sto` / `fos` / `t_o`, strings of every size kind / mask / furibug, padding, narrow integers, imm, arg0) plus signatures of the game's own table, generated difficulty flag tables; raise/rtm: scripts of 0-8 instructions with time sequences (monotone, from -1, decreasing, arbitrary, wild i32, zero crossings), jumps to every boundary incl. start and end, backward/forward, shared labels, time arguments = previous/destination/other, all 256 difficulty masks, registers, unknown opcodes, --no-arguments, and a non-canonical third (non-zero padding, trailing bytes, truncation, flipped mask bits incl. on immediate parameters and beyond the parameters, arg0 field set/cleared, special float register numbers, data after NUL, over-padded and unterminated strings, flipped bytes, bad jump offsets); lower: statement lists of 1-10 statements (labels with the decompiler's name shapes and others, abs/rel time labels incl. wrapping, calls with offsetof/timeof in jump and integer positions, registers, @mask/@arg0/@blob, difficulty labels valid and invalid) with a malformed fifth (duplicate/undefined labels, wrong arity/type, misfits, registers in constant positions, blob with arguments, blob not dword-sized, unknown signature). search: generated sources of every format/game (ANM v0-v8, STD06/10, MSG/END TH06-TH18, old ECL + timelines TH06-TH095) compiled, then decompiled under random subsets of {--no-arguments,--no-intrinsics,--no-calls,--no-blocks,--no-diff-switches} x widths {1,17,40,80,99,200} x optional user mapfile with aliases, recompiled and compared byte for byte unless decompile printed a warning; all bundled binaries under every one of the 32 option subsets; non-trivial = compiles and decompiles without warning; distinct by case text"
+    }
+    fn theorems(&self) -> &'static [&'static str] {
+        &["TruthModel.C03.readInstrs_writeInstrs", "TruthModel.C01.lower_raise_flat", "TruthModel.C01.lower_raise_flat_no_warning", "TruthModel.C01.blob_roundtrip",
+          "TruthModel.C01.canonical_of_compiled", "TruthModel.C01.canonical_of_fixed_width", "TruthModel.C01.noncanonical_warns", "TruthModel.C01.raiseFlat_warns",
+          "TruthModel.C01.silent_register_bit_on_immediate", "TruthModel.C01.silent_float_register", "TruthModel.C01.silent_overpadded_string",
+          "TruthModel.C01.blob_not_dwords_does_not_recompile"]
+    }
 
     fn gen(&self, tier: Tier, rng: &mut Rng) -> Vec<Case> {
         let scale = if tier == Tier::Quick { 1 } else { 20 };
@@ -89,10 +96,19 @@ impl Prop for C01 {
                 out.push(Case::search(Sexp::app("rt", vec![Sexp::atom(g.format.name()), Sexp::atom(format!("{}", g.game)), Sexp::list(maps.iter().map(|m| Sexp::str(m.clone())).collect()), Sexp::int(bits), Sexp::int(width as i64), Sexp::str(g.text.clone())])).tag(format!("generated-{}", g.format.name())));
             }
         }
+        // model-compared cases (after the search cases, so that those stay the same sample)
+        out.extend(super::c01_flat::gen(tier, &mut rng.fork(101)));
         out
     }
 
+    fn judge(&self, case: &Sexp, result: &Sexp) -> Option<super::Failure> {
+        if super::c01_flat::is_flat_case(case) { super::c01_flat::judge(case, result) } else { super::default_judge(result) }
+    }
+
+    fn neighbours(&self, case: &Sexp, _rng: &mut Rng) -> Vec<Case> { super::c01_flat::neighbours(case) }
+
     fn eval(&self, case: &Sexp) -> Sexp {
+        if super::c01_flat::is_flat_case(case) { return super::c01_flat::eval(case); }
         let a = case.args();
         let format = Format::from_name(a[0].as_atom());
         let game = tc::game(a[1].as_atom());
